@@ -198,7 +198,7 @@ func isValidFlag(s string) bool {
 			}
 		}
 	}
-	return len(s) > 0
+	return strings.TrimPrefix(s, "\\") != ""
 }
 
 func (enc *Encoder) Number(v uint32) *Encoder {
